@@ -335,7 +335,10 @@ def run(pid, tier):
     if pid == "C03":
         conc_stage(bindir, tier, wd, cov, v)
     if pid == "C05":
-        pass
+        # "a single pool worker runs queued tasks in priority order while no more tasks are queued
+        # than the local capacity": pool driver, clause task_order of Trace_CoPool.tla
+        import pool as poolcheck
+        poolcheck.stage("C05", tier, v, cov, wd, bindir)
     cov["samples"] = [{"scenario": {k: (s[k] if k != "ops" else s[k][:12]) for k in s}} for s in scs[:2]] + \
                      [{"scenario": {k: (s[k] if k != "ops" else s[k][:12]) for k in s}} for s in scs[-1:]]
     cov["clauses_checked"] = sorted(CLAUSES[pid])
